@@ -19,44 +19,18 @@ Ltac Zify.zify_post_hook ::= Z.to_euclidean_division_equations.
 (* ------------------------------------------------------------------ *)
 (* array semantics of hset / hget                                       *)
 
-Lemma hset_some h i v : i < HLEN -> hset h i v = Some ((i, v) :: h).
-Proof. intro H. unfold hset. destruct (N.ltb_spec i HLEN); [reflexivity|lia]. Qed.
+Lemma hget_hset_same h i v : hget (hset h i v) i = v.
+Proof. unfold hset. cbn [hget]. now rewrite N.eqb_refl. Qed.
 
-Lemma hset_none h i v : HLEN <= i -> hset h i v = None.
-Proof. intro H. unfold hset. destruct (N.ltb_spec i HLEN); [lia|reflexivity]. Qed.
+Lemma hget_hset_other h i v j : j <> i -> hget (hset h i v) j = hget h j.
+Proof. intro Hne. unfold hset. cbn [hget]. destruct (N.eqb_spec j i); [contradiction|reflexivity]. Qed.
 
-Lemma hset_inv h i v h' : hset h i v = Some h' -> i < HLEN /\ h' = (i, v) :: h.
-Proof. unfold hset. destruct (N.ltb_spec i HLEN); intro E; [injection E as <-; auto|discriminate]. Qed.
-
-Lemma hget_hset_same h i v h' : hset h i v = Some h' -> hget h' i = v.
-Proof. intro E. apply hset_inv in E as [_ ->]. cbn [hget]. now rewrite N.eqb_refl. Qed.
-
-Lemma hget_hset_other h i v h' j : hset h i v = Some h' -> j <> i -> hget h' j = hget h j.
-Proof.
-  intros E Hne. apply hset_inv in E as [_ ->]. cbn [hget].
-  destruct (N.eqb_spec j i); [contradiction|reflexivity].
-Qed.
-
-Lemma hget_hset h i v h' j : hset h i v = Some h' -> hget h' j = if j =? i then v else hget h j.
-Proof.
-  intro E. destruct (N.eqb_spec j i) as [->|Hne].
-  - eapply hget_hset_same; eauto.
-  - eapply hget_hset_other; eauto.
-Qed.
-
-Lemma hget_hempty j : hget hempty j = 0.
+Lemma hget_hset h i v j : hget (hset h i v) j = if j =? i then v else hget h j.
 Proof. reflexivity. Qed.
 
-Lemma hset_panics_iff h i v : hset h i v = None <-> HLEN <= i.
-Proof.
-  unfold hset. destruct (N.ltb_spec i HLEN); split; intro; try discriminate; try lia; reflexivity.
-Qed.
-
-Lemma hread_some h i : i < HLEN -> hread h i = Some (hget h i).
-Proof. intro H. unfold hread. destruct (N.ltb_spec i HLEN); [reflexivity|lia]. Qed.
-
-Lemma hread_none h i : HLEN <= i -> hread h i = None.
-Proof. intro H. unfold hread. destruct (N.ltb_spec i HLEN); [lia|reflexivity]. Qed.
+(* unwritten entries read as 0, for any index *)
+Lemma hget_hempty j : hget hempty j = 0.
+Proof. reflexivity. Qed.
 
 (* ------------------------------------------------------------------ *)
 (* below / countb / window                                              *)
@@ -185,14 +159,14 @@ Qed.
 
 Lemma count_loop_spec : forall fuel cur reps,
   (N.to_nat (cur / 2) + 2 <= fuel)%nat ->
-  cur < HLEN -> cur mod 2 = i mod 2 -> cur + 4 <= i -> 1 <= reps <= 2 ->
+  cur mod 2 = i mod 2 -> cur + 4 <= i -> 1 <= reps <= 2 ->
   count_loop fuel h z (Z.of_N lo) (Z.of_N cur) reps
   = Some (N.min 3 (reps + cnt (filter (in_window i hm) (below (cur + 1))))).
 Proof.
-  induction fuel as [|fuel IH]; intros cur reps Hf Hc Hp H4 Hr; [lia|].
+  induction fuel as [|fuel IH]; intros cur reps Hf Hp H4 Hr; [lia|].
   cbn [count_loop].
   destruct (Z.leb_spec (Z.of_N lo) (Z.of_N cur)) as [Hle|Hgt].
-  - rewrite N2Z.id, hread_some by exact Hc.
+  - rewrite N2Z.id.
     assert (Hlo : lo <= cur) by lia.
     destruct (N.lt_ge_cases cur 2) as [Hsm|Hbig].
     + (* last element: the next index is negative *)
@@ -209,8 +183,8 @@ Proof.
       assert (Hp' : (cur - 2) mod 2 = i mod 2) by lia.
       destruct (hget h cur =? z).
       * destruct (N.leb_spec 3 (reps + 1)); [f_equal; lia|].
-        rewrite IH by (try assumption; unfold HLEN in *; lia). f_equal; lia.
-      * rewrite IH by (try assumption; unfold HLEN in *; lia). f_equal; lia.
+        rewrite IH by (try assumption; lia). f_equal; lia.
+      * rewrite IH by (try assumption; lia). f_equal; lia.
   - rewrite window_stop by lia. unfold cnt. cbn [countb]. f_equal; lia.
 Qed.
 
@@ -223,8 +197,7 @@ Proof.
   induction fuel as [|fuel IH]; intros cur reps r E k; [discriminate|].
   cbn [count_loop plus] in *.
   destruct (mn <=? cur)%Z; [|exact E].
-  destruct (hread h (Z.to_N cur)) as [cz|]; [|discriminate].
-  destruct (cz =? z).
+  destruct (hget h (Z.to_N cur) =? z).
   - destruct (3 <=? reps + 1); [exact E|]. now apply IH.
   - now apply IH.
 Qed.
@@ -235,15 +208,15 @@ Qed.
 Lemma max0_sub (i hm : N) : Z.max 0 (Z.of_N i - Z.of_N hm) = Z.of_N (i - hm).
 Proof. lia. Qed.
 
-Lemma count_small h i hm : i < 4 -> count_repetitions h i hm = Some 0.
-Proof. intro H. unfold count_repetitions. destruct (N.ltb_spec i 4); [reflexivity|lia]. Qed.
+Lemma count_fuel_small h i hm : i < 4 -> count_repetitions_fuel h i hm = Some 0.
+Proof. intro H. unfold count_repetitions_fuel. destruct (N.ltb_spec i 4); [reflexivity|lia]. Qed.
 
-Lemma count_exact h i hm : 4 <= i -> i < 5000 ->
-  count_repetitions h i hm = Some (N.min 3 (1 + occurrences (hget h) i hm)).
+Lemma count_fuel_exact h i hm : 4 <= i ->
+  count_repetitions_fuel h i hm = Some (N.min 3 (1 + occurrences (hget h) i hm)).
 Proof.
-  intros H4 H5. unfold count_repetitions.
+  intros H4. unfold count_repetitions_fuel.
   destruct (N.ltb_spec i 4); [lia|].
-  rewrite hread_some by exact H5. cbv zeta. rewrite max0_sub.
+  cbv zeta. rewrite max0_sub.
   replace (Z.of_N i - 4)%Z with (Z.of_N (i - 4)) by lia.
   rewrite count_loop_spec with (i := i) (hm := hm).
   - unfold occurrences, window. replace (i - 4 + 1) with (i - 3) by lia.
@@ -251,67 +224,65 @@ Proof.
     rewrite (filter_below_cut (in_window i hm) (i - 3) i); [reflexivity|lia|].
     intros x Hx. destruct (in_window i hm x) eqn:E; [|reflexivity]. apply in_window_iff in E. lia.
   - assert ((i - 4) / 2 + 2 = i / 2) by lia. lia.
-  - unfold HLEN. lia.
   - lia.
   - lia.
   - lia.
 Qed.
 
-Lemma count_total h i hm : i < 5000 ->
-  count_repetitions h i hm = Some (if i <? 4 then 0 else N.min 3 (1 + occurrences (hget h) i hm)).
+(* the fuel is never exhausted: the option-free [count_repetitions] is the loop's result *)
+Lemma count_repetitions_fuel_some h i hm :
+  count_repetitions_fuel h i hm = Some (count_repetitions h i hm).
 Proof.
-  intro H. destruct (N.ltb_spec i 4); [now apply count_small|now apply count_exact].
+  unfold count_repetitions. destruct (N.lt_ge_cases i 4) as [Hs|Hb].
+  - now rewrite count_fuel_small.
+  - now rewrite count_fuel_exact.
 Qed.
 
-Lemma count_no_panic h i hm : i < 5000 -> count_repetitions h i hm <> None.
-Proof. intro H. rewrite count_total by exact H. discriminate. Qed.
+Lemma count_no_panic h i hm : count_repetitions_fuel h i hm <> None.
+Proof. rewrite count_repetitions_fuel_some. discriminate. Qed.
 
-Lemma count_panics h i hm : 5000 <= i -> count_repetitions h i hm = None.
+Lemma count_small h i hm : i < 4 -> count_repetitions h i hm = 0.
+Proof. intro H. unfold count_repetitions. now rewrite count_fuel_small. Qed.
+
+Lemma count_exact h i hm : 4 <= i ->
+  count_repetitions h i hm = N.min 3 (1 + occurrences (hget h) i hm).
+Proof. intro H. unfold count_repetitions. now rewrite count_fuel_exact. Qed.
+
+Lemma count_total h i hm :
+  count_repetitions h i hm = if i <? 4 then 0 else N.min 3 (1 + occurrences (hget h) i hm).
 Proof.
-  intro H. unfold count_repetitions. destruct (N.ltb_spec i 4); [lia|].
-  now rewrite hread_none.
+  destruct (N.ltb_spec i 4); [now apply count_small|now apply count_exact].
 Qed.
 
-Lemma count_panic_iff h i hm : count_repetitions h i hm = None <-> 5000 <= i.
+Lemma count_ge3_iff h i hm :
+  3 <= count_repetitions h i hm <-> 2 <= occurrences (hget h) i hm.
 Proof.
-  split.
-  - intro E. destruct (N.lt_ge_cases i 5000) as [Hl|Hg]; [|exact Hg]. now apply count_no_panic in E.
-  - apply count_panics.
-Qed.
-
-Lemma count_ge3_iff h i hm c : i < 5000 ->
-  count_repetitions h i hm = Some c -> (3 <= c <-> 2 <= occurrences (hget h) i hm).
-Proof.
-  intros H E. rewrite count_total in E by exact H. injection E as <-.
+  rewrite count_total.
   destruct (N.ltb_spec i 4) as [Hs|Hs]; [|lia].
   unfold occurrences. rewrite window_small by exact Hs. cbn [countb]. lia.
 Qed.
 
-Lemma count_le3 h i hm c : count_repetitions h i hm = Some c -> c <= 3.
-Proof.
-  intro E. destruct (N.lt_ge_cases i 5000) as [Hl|Hg].
-  - rewrite count_total in E by exact Hl. injection E as <-. destruct (i <? 4); lia.
-  - rewrite count_panics in E by exact Hg. discriminate.
-Qed.
+Lemma count_le3 h i hm : count_repetitions h i hm <= 3.
+Proof. rewrite count_total. destruct (i <? 4); lia. Qed.
 
 (* the `as u16` cast of the caller *)
 Lemma count_u32_small h i hm : hm < 65536 -> count_repetitions_u32 h i hm = count_repetitions h i hm.
 Proof. intro H. unfold count_repetitions_u32. now rewrite N.mod_small. Qed.
 
 (* search_negamax step *)
-Lemma visit_spec h p key hm : p < 5000 ->
-  visit h p key hm =
-  Some ((p, key) :: h,
-        (4 <=? p) && (2 <=? occurrences (hget ((p, key) :: h)) p (hm mod 65536))).
+Lemma visit_spec h d p key hm :
+  visit h d p key hm =
+  ((p, key) :: h, (0 <? d) && (2 <=? occurrences (hget ((p, key) :: h)) p (hm mod 65536))).
 Proof.
-  intro H. unfold visit. rewrite hset_some by exact H.
-  unfold count_repetitions_u32. rewrite count_total by exact H. f_equal. f_equal.
-  destruct (N.ltb_spec p 4).
-  - destruct (N.leb_spec 4 p); [lia|]. reflexivity.
-  - destruct (N.leb_spec 4 p); [|lia]. cbn [andb].
-    set (o := occurrences _ _ _).
-    destruct (N.leb_spec 3 (N.min 3 (1 + o))); destruct (N.leb_spec 2 o); try reflexivity; lia.
+  unfold visit, hset, count_repetitions_u32. f_equal. f_equal.
+  pose proof (count_ge3_iff ((p, key) :: h) p (hm mod 65536)) as G.
+  set (c := count_repetitions _ _ _) in *. set (o := occurrences _ _ _) in *.
+  destruct (N.leb_spec 3 c); destruct (N.leb_spec 2 o); try reflexivity; lia.
 Qed.
+
+(* the root of the search never takes the repetition leaf (fix 47e8879) *)
+Lemma visit_root h p key hm : snd (visit h 0 p key hm) = false.
+Proof. reflexivity. Qed.
 
 (* ------------------------------------------------------------------ *)
 (* spec level: the window sees every repetition                         *)
@@ -422,30 +393,18 @@ Qed.
 (* ------------------------------------------------------------------ *)
 (* set_position_from: the recorded game is held by the array            *)
 
-Lemma record_from_spec : forall keys h base h',
-  record_from h base keys = Some h' ->
-  (keys <> [] -> base + lenN keys <= HLEN) /\
-  (forall d x, nth_errorN d keys = Some x -> hget h' (base + d) = x) /\
-  (forall j, j < base \/ base + lenN keys <= j -> hget h' j = hget h j).
+Lemma record_from_spec : forall keys h base,
+  (forall d x, nth_errorN d keys = Some x -> hget (record_from h base keys) (base + d) = x) /\
+  (forall j, j < base \/ base + lenN keys <= j -> hget (record_from h base keys) j = hget h j).
 Proof.
-  unfold lenN. induction keys as [|a r IH]; intros h base h' E.
-  - cbn in E. injection E as <-. split; [congruence|]. split; [discriminate|reflexivity].
-  - cbn [record_from] in E. destruct (hset h base a) as [h1|] eqn:S; [|discriminate].
-    pose proof (hset_inv _ _ _ _ S) as [Hb _].
-    destruct (IH _ _ _ E) as (L & G & O). cbn [length].
-    split; [|split].
-    + intros _. destruct r; [cbn; lia|]. specialize (L ltac:(discriminate)). lia.
+  unfold lenN. induction keys as [|a r IH]; intros h base.
+  - split; [discriminate|reflexivity].
+  - cbn [record_from]. destruct (IH (hset h base a) (base + 1)) as (G & O). cbn [length].
+    split.
     + intros d x Hd. cbn [nth_errorN] in Hd. destruct (N.eqb_spec d 0) as [->|Hnz].
-      * injection Hd as <-. rewrite O by lia. rewrite N.add_0_r. eapply hget_hset_same; eauto.
+      * injection Hd as <-. rewrite O by lia. rewrite N.add_0_r. apply hget_hset_same.
       * replace (base + d) with (base + 1 + (d - 1)) by lia. now apply G.
-    + intros j Hj. rewrite O by lia. eapply hget_hset_other; eauto. lia.
-Qed.
-
-Lemma record_from_no_panic : forall keys h base,
-  base + lenN keys <= HLEN -> record_from h base keys <> None.
-Proof.
-  unfold lenN. induction keys as [|a r IH]; intros h base H; [discriminate|].
-  cbn [record_from length] in *. rewrite hset_some by lia. apply IH. lia.
+    + intros j Hj. rewrite O by lia. apply hget_hset_other. lia.
 Qed.
 
 Lemma nth_errorN_app : forall l d a,
@@ -477,44 +436,34 @@ Proof.
     destruct (N.ltb_spec (lenN l - 1 - (d - 1)) (lenN l)); [exact H|lia].
 Qed.
 
-Lemma record_from_holds keys h base h' :
-  keys <> [] -> record_from h base keys = Some h' ->
-  holds_game (hget h') (base + lenN keys - 1) keys.
+Lemma record_from_holds keys h base :
+  keys <> [] -> holds_game (hget (record_from h base keys)) (base + lenN keys - 1) keys.
 Proof.
-  intros Hne E. destruct (record_from_spec _ _ _ _ E) as (_ & G & _).
+  intros Hne. destruct (record_from_spec keys h base) as (G & _).
   assert (1 <= lenN keys) by (unfold lenN; destruct keys; [contradiction|cbn; lia]).
   split; [lia|]. intros d x Hd. apply nth_errorN_rev in Hd as [Hd Hlt].
   apply G in Hd. replace (base + lenN keys - 1 - d) with (base + (lenN keys - 1 - d)) by lia. exact Hd.
 Qed.
 
 (* end to end for the game history: position command, then the count at the current position *)
-Lemma history_threefold keys h base h' hm c :
-  keys <> [] -> record_from h base keys = Some h' -> hm + 1 <= lenN keys ->
+Lemma history_threefold keys h base hm :
+  keys <> [] -> hm + 1 <= lenN keys -> hm < 65536 ->
   parity_ok_keys keys -> no_dist2_keys keys ->
-  count_repetitions_u32 h' (base + lenN keys - 1) hm = Some c ->
-  (3 <= c <-> threefold keys hm).
+  (3 <= count_repetitions_u32 (record_from h base keys) (base + lenN keys - 1) hm <-> threefold keys hm).
 Proof.
-  intros Hne E Hhm Hp Hd Hc.
-  destruct (record_from_spec _ _ _ _ E) as (L & _ & _). specialize (L Hne). unfold HLEN in L.
-  assert (1 <= lenN keys) by (unfold lenN; destruct keys; [contradiction|cbn; lia]).
-  rewrite count_u32_small in Hc by lia.
-  assert (Hi : base + lenN keys - 1 < 5000) by lia.
-  rewrite (count_ge3_iff _ _ _ _ Hi Hc).
-  rewrite (window_all_keys (hget h') _ keys hm Hne (record_from_holds _ _ _ _ Hne E) Hhm Hp Hd).
+  intros Hne Hhm H16 Hp Hd.
+  rewrite count_u32_small by exact H16.
+  rewrite count_ge3_iff.
+  rewrite (window_all_keys _ _ keys hm Hne (record_from_holds keys h base Hne) Hhm Hp Hd).
   unfold threefold. reflexivity.
 Qed.
 
 (* ------------------------------------------------------------------ *)
-(* D16: ply clock >= 5000 panics (array index out of bounds)            *)
+(* D16 is fixed: indices >= 5000 are ordinary indices                   *)
 
-Lemma panics_at_5000 : exists h i hm, i < 65536 /\ hm < 65536 /\ count_repetitions h i hm = None.
-Proof. exists hempty, 5000, 0. repeat split; try reflexivity. Qed.
-
-Lemma total_refuted : ~ (forall h i hm, i < 65536 -> hm < 65536 -> count_repetitions h i hm <> None).
-Proof. intro H. apply (H hempty 5000 0); reflexivity. Qed.
-
-Lemma hset_total_refuted : ~ (forall h i v, i < 65536 -> hset h i v <> None).
-Proof. intro H. apply (H hempty 5000 0); reflexivity. Qed.
+Lemma hset_beyond_initial_len h i v j : INITIAL_LEN <= i ->
+  hget (hset h i v) j = if j =? i then v else hget h j.
+Proof. intros _. apply hget_hset. Qed.
 
 (* the `as u16` cast: a half-move clock of 65536 + 8 inspects the window of 8 *)
 Lemma u16_cast h i hm : count_repetitions_u32 h i (65536 + hm) = count_repetitions_u32 h i hm.
@@ -525,35 +474,59 @@ Proof.
 Qed.
 
 (* ------------------------------------------------------------------ *)
+(* fifty-move rule                                                      *)
+
+Lemma fifty_iff mx half lm : fifty_branch mx half lm = true <-> lm = true /\ mx <= half.
+Proof. unfold fifty_branch. rewrite andb_true_iff, N.leb_le. tauto. Qed.
+
+Lemma fifty_100 half : fifty_branch 100 half true = true -> 100 <= half.
+Proof. intro H. now apply fifty_iff in H. Qed.
+
+Lemma fifty_100_iff half : fifty_branch 100 half true = true <-> 100 <= half.
+Proof. rewrite fifty_iff. tauto. Qed.
+
+Lemma fifty_never_early half lm : half < 100 -> fifty_branch 100 half lm = false.
+Proof.
+  intro H. destruct (fifty_branch 100 half lm) eqn:E; [|reflexivity]. apply fifty_iff in E. lia.
+Qed.
+
+(* ------------------------------------------------------------------ *)
 (* the repository's own unit test (zobrist_history.rs, mod test)         *)
 
-Definition unit_test_history : option hist :=
+Definition unit_test_history : hist :=
   record_from hempty 0 [123; 4312; 1; 2; 3; 4; 1; 2; 3; 4; 1].
 
-Definition on_unit_test (f : hist -> option N) : option N :=
-  match unit_test_history with Some h => f h | None => None end.
-
-Example unit_test_8 : on_unit_test (fun h => count_repetitions h 10 8) = Some 3.
+Example unit_test_8 : count_repetitions unit_test_history 10 8 = 3.
 Proof. vm_compute. reflexivity. Qed.
-Example unit_test_7 : on_unit_test (fun h => count_repetitions h 10 7) = Some 2.
+Example unit_test_7 : count_repetitions unit_test_history 10 7 = 2.
 Proof. vm_compute. reflexivity. Qed.
-Example unit_test_6 : on_unit_test (fun h => count_repetitions h 10 6) = Some 2.
+Example unit_test_6 : count_repetitions unit_test_history 10 6 = 2.
 Proof. vm_compute. reflexivity. Qed.
 Example unit_test_window_8 : window 10 8 = [6; 4; 2].
 Proof. vm_compute. reflexivity. Qed.
 Example unit_test_window_7 : window 10 7 = [6; 4].
 Proof. vm_compute. reflexivity. Qed.
-Example window_4999 : length (window 4999 65535) = 2498%nat /\ hd 0 (window 4999 65535) = 4995 /\ last (window 4999 65535) 0 = 1.
-Proof. vm_compute. repeat split. Qed.
 (* a FEN half-move clock of 65544 is cast to 8; one of 65536 to 0 (the window disappears) *)
-Example unit_test_cast_65544 : on_unit_test (fun h => count_repetitions_u32 h 10 65544) = Some 3.
+Example unit_test_cast_65544 : count_repetitions_u32 unit_test_history 10 65544 = 3.
 Proof. vm_compute. reflexivity. Qed.
-Example unit_test_cast_65536 : on_unit_test (fun h => count_repetitions_u32 h 10 65536) = Some 1.
+Example unit_test_cast_65536 : count_repetitions_u32 unit_test_history 10 65536 = 1.
 Proof. vm_compute. reflexivity. Qed.
-Example unit_test_nocast_65536 : on_unit_test (fun h => count_repetitions h 10 65536) = Some 3.
+Example unit_test_nocast_65536 : count_repetitions unit_test_history 10 65536 = 3.
 Proof. vm_compute. reflexivity. Qed.
-Example unit_test_full_array : count_repetitions hempty 4999 65535 = Some 3.
-Proof. vm_compute. reflexivity. Qed.
+
+(* Historic defect D16 (fixed in /repo commit aca2b0d).  With `history: [u64; 5000]` both `set(5000, _)` and
+   `count_repetitions(5000, _)` were array-index-out-of-bounds panics that killed the search thread (FEN with
+   full-move number >= 2501).  Now index 5000 and the last u16 index behave like every other index: the write is
+   read back, unwritten entries are 0, the window reaches down to index 0. *)
+Example historic_D16 :
+  count_repetitions_fuel hempty 5000 0 = Some 1 /\
+  hget (hset hempty 5000 7) 5000 = 7 /\
+  count_repetitions (hset (hset (hset hempty 4992 7) 4996 7) 5000 7) 5000 8 = 3 /\
+  count_repetitions (hset (hset (hset hempty 4992 7) 4996 7) 5000 7) 5000 7 = 2 /\
+  count_repetitions (hset (hset (hset hempty 65527 7) 65531 7) 65535 7) 65535 8 = 3 /\
+  count_repetitions (hset (hset (hset hempty 65527 7) 65531 9) 65535 7) 65535 65535 = 2 /\
+  count_repetitions hempty 65535 65535 = 3.
+Proof. vm_compute. repeat split. Qed.
 
 (* the two hypotheses on key sequences are satisfiable together with a threefold repetition
    (a four-ply shuffle played twice): the chess-level statements are not vacuous *)
@@ -571,7 +544,3 @@ Proof.
   - vm_compute. intro H. now apply H.
 Qed.
 
-Lemma count_exact_both h i hm : i < 5000 -> hm < 65536 ->
-  (4 <= i -> count_repetitions h i hm = Some (N.min 3 (1 + occurrences (hget h) i hm))) /\
-  (i < 4 -> count_repetitions h i hm = Some 0).
-Proof. intros H5 _. split; [intro H4; now apply count_exact|apply count_small]. Qed.
